@@ -824,27 +824,36 @@ func (bc *BlockChain) WriteBlockWithState(block *types.Block, state *state.State
 
 	logging.Info("WriteBlockWithState: triedb commit", "block", block.Hash().String(), "number", block.NumberU64(), "blockroot", block.Root().String(), "root", root.String(), "valRoot", valRoot.String(), "stakingRoot", stakingRoot)
 
+	// Receipts, the canonical-number entries and lookup entries of every block that
+	// becomes canonical, the lookup deletions of a reorg and the head markers go to
+	// disk in ONE batch: a crash leaves either the old head with its index or the new one.
 	batch := bc.db.NewBatch()
 	//save receipts to db
 	if receipts != nil && len(receipts) > 0 {
 		rawdb.WriteReceipts(batch, block.Hash(), block.NumberU64(), receipts)
 	}
 
+	var newChain types.Blocks
 	if block.ParentHash() != bc.CurrentBlock().Hash() {
 		// Reorganise the chain if the parent is not the head block
-		if err := bc.reorg(bc.CurrentBlock(), block); err != nil {
+		var err error
+		if newChain, err = bc.reorg(batch, bc.CurrentBlock(), block); err != nil {
 			logging.Info("WriteBlockWithState: reorg failed:", "err", err, "number", block.NumberU64(), "hash", block.Hash().String(), "parentHash", block.ParentHash().String())
 			return err
 		}
 	}
 
 	rawdb.WriteTxLookupEntries(batch, block)
+	stageHead(batch, block)
 	if err := batch.Write(); err != nil {
 		return err
 	}
 
-	// Set new head.
-	bc.insert(block)
+	// Everything is on disk: publish the new head(s) in memory.
+	for i := len(newChain) - 1; i >= 0; i-- {
+		bc.adoptHead(newChain[i])
+	}
+	bc.adoptHead(block)
 
 	bc.futureBlocks.Remove(block.Hash())
 
@@ -853,8 +862,11 @@ func (bc *BlockChain) WriteBlockWithState(block *types.Block, state *state.State
 
 // reorgs takes two blocks, an old chain and a new chain and will reconstruct the blocks and inserts them
 // to be part of the new canonical chain and accumulates potential missing transactions and post an
-// event about them
-func (bc *BlockChain) reorg(oldBlock, newBlock *types.Block) error {
+// event about them.
+// All database changes are staged into batch (written by the caller together with the
+// head markers); the new chain (highest block first) is returned so that the caller
+// can publish it in memory after the write.
+func (bc *BlockChain) reorg(batch youdb.Batch, oldBlock, newBlock *types.Block) (types.Blocks, error) {
 	var (
 		oldChain    types.Blocks
 		newChain    types.Blocks
@@ -900,10 +912,10 @@ func (bc *BlockChain) reorg(oldBlock, newBlock *types.Block) error {
 	}
 
 	if oldBlock == nil {
-		return fmt.Errorf("Invalid old chain")
+		return nil, fmt.Errorf("Invalid old chain")
 	}
 	if newBlock == nil {
-		return fmt.Errorf("Invalid new chain")
+		return nil, fmt.Errorf("Invalid new chain")
 	}
 
 	// find common ancestor
@@ -920,11 +932,11 @@ func (bc *BlockChain) reorg(oldBlock, newBlock *types.Block) error {
 
 		oldBlock = bc.GetBlock(oldBlock.ParentHash(), oldBlock.NumberU64()-1)
 		if oldBlock == nil {
-			return fmt.Errorf("Invalid old chain")
+			return nil, fmt.Errorf("Invalid old chain")
 		}
 		newBlock = bc.GetBlock(newBlock.ParentHash(), newBlock.NumberU64()-1)
 		if newBlock == nil {
-			return fmt.Errorf("Invalid new chain")
+			return nil, fmt.Errorf("Invalid new chain")
 		}
 	}
 
@@ -941,25 +953,23 @@ func (bc *BlockChain) reorg(oldBlock, newBlock *types.Block) error {
 	}
 
 	for i := len(newChain) - 1; i >= 0; i-- {
-		// insert the block in the canonical way, re-writing history
-		bc.insert(newChain[i])
+		// stage the block as canonical, re-writing history
+		stageHead(batch, newChain[i])
 
 		// Collect reborn logs due to chain reorg
 		collectLogs(newChain[i].Hash(), false)
 
 		// write lookup entries for hash based transaction/receipt searches
-		rawdb.WriteTxLookupEntries(bc.db, newChain[i])
+		rawdb.WriteTxLookupEntries(batch, newChain[i])
 		addedTxs = append(addedTxs, newChain[i].Transactions()...)
 	}
 	// calculate the difference between deleted and added transactions
 	diff := types.TxDifference(deletedTxs, addedTxs)
 	// When transactions get deleted from the database that means the
 	// receipts that were created in the fork must also be deleted
-	batch := bc.db.NewBatch()
 	for _, tx := range diff {
 		rawdb.DeleteTxLookupEntry(batch, tx.Hash())
 	}
-	batch.Write()
 
 	go func() {
 		if len(deletedLogs) > 0 {
@@ -969,7 +979,7 @@ func (bc *BlockChain) reorg(oldBlock, newBlock *types.Block) error {
 			bc.logsFeed.Send(rebirthLogs)
 		}
 	}()
-	return nil
+	return newChain, nil
 }
 
 // insert injects a new head block into the current block chain. This method
@@ -982,6 +992,26 @@ func (bc *BlockChain) insert(block *types.Block) {
 	// Add the block to the canonical chain number scheme and mark as the head
 	bc.hc.SetCurrentHeader(block.Header())
 	bc.updateHeadBlock(block)
+}
+
+// stageHead writes the three markers that make block the canonical head
+// (head header, number->hash, head block) into db, normally a batch.
+func stageHead(db rawdb.DatabaseWriter, block *types.Block) {
+	rawdb.WriteHeadHeaderHash(db, block.Hash())
+	rawdb.WriteCanonicalHash(db, block.Hash(), block.NumberU64())
+	rawdb.WriteHeadBlockHash(db, block.Hash())
+}
+
+// adoptHead publishes a head whose markers are already on disk.
+//
+// Note, this function assumes that the `mu` mutex is held!
+func (bc *BlockChain) adoptHead(block *types.Block) {
+	bc.hc.currentHeader.Store(block.Header())
+	bc.currentBlock.Store(block)
+
+	//send to event bus
+	evt := InsertBlockEvent{Block: block}
+	go bc.eventMux.Post(evt)
 }
 
 func (bc *BlockChain) updateHeadBlock(block *types.Block) {
